@@ -59,6 +59,9 @@ CHECKS = {
              "the bound, three scan orders, -j1/-j8 RAM.", "DESIGN.md#c10", cat="other"),
     "C11": R("Subsumption contract (no dominated tuple, only derivable tuples, minimal tuples for monotone-cost programs) decided on the emitted RAM "
              "for every database in the bound.", "DESIGN.md#c11", cat="other"),
+    "C12": R("Numeric lattices with interpreted Lub/Glb models (max/min, bit-or/bit-and): on the final database of the emitted RAM, for every "
+             "input database in the bound: one tuple per key, value = join of all derivable values for the key, every derivable key present.",
+             "DESIGN.md#c12", cat="other"),
     "C15": R("For each corpus program the text printed by --show=initial-ast parses again and prints identically (direct runs of the real "
              "parser/printer), and the RAM of the printed program is proved to satisfy the original program's semantics for every database "
              "in the bound.  The parser itself is not encoded.", "DESIGN.md#c15"),
